@@ -251,23 +251,34 @@ func VF_C17_DecodeMany() {
 		want []vfElem
 	}
 	var items []item
-	pipe := make(chan *rdb.BinEntry, 4)
-	kinds := []int{1, 0, 3}
+	pipe := make(chan *rdb.BinEntry, 6)
+	kinds := []int{1, 0}
+	// two Lua scripts among the keys: both first, both last (as Redis writes them), split, or in the middle
+	pos := [][2]int{{0, 0}, {2, 2}, {0, 2}, {1, 1}}[vfPick("luapos", 4)]
+	lua1, lua2 := pos[0], pos[1]
+	putLua := func(pos int) {
+		if lua1 == pos {
+			pipe <- &rdb.BinEntry{DB: 0, Key: []byte("lua"), Type: rdb.RdbFlagAUX, Value: []byte("return 1")}
+		}
+		if lua2 == pos {
+			pipe <- &rdb.BinEntry{DB: 0, Key: []byte("lua"), Type: rdb.RdbFlagAUX, Value: []byte("return 2")}
+		}
+	}
 	for i, k := range kinds {
+		putLua(i)
 		key := append([]byte{byte('a' + i)}, vfBytes("key", 1)...)
 		db := uint32(i)
 		e, want := vfMakeEntry(k, key, db, 0)
 		items = append(items, item{key, db, want})
 		pipe <- e
 	}
-	// and a Lua script
-	pipe <- &rdb.BinEntry{DB: 0, Key: []byte("lua"), Type: rdb.RdbFlagAUX, Value: []byte("return 1")}
+	putLua(2)
 	close(pipe)
 	vfDecodeEnv(pipe)
 	cmd := &CmdDecode{}
 	cmd.decode("in", "out")
 	lines := vfParse(vfOut)
-	total := 1
+	total := 2
 	for _, it := range items {
 		total += len(it.want)
 	}
@@ -294,6 +305,6 @@ func VF_C17_DecodeMany() {
 			nlua++
 		}
 	}
-	vfAssert(nlua == 1, "the Lua script is not printed exactly once")
+	vfAssert(nlua == 2, "each Lua script must be printed exactly once")
 	vfAssertTwin(len(lines) == 0, "twin")
 }
